@@ -62,7 +62,7 @@ AXES = {
     "beta2": [1.0, 0.5],
     "graft": [None, ["adam", 0.5, 1e-1]],
     "gscale": [1.0, 2.0 ** -17],  # tiny gradients with epsilon scaled accordingly (1e-1 * gscale^2 ~ 5.8e-12)
-    "grad_kind": ["table", "rank1_first", "onehot_first"],  # onehot: diagonal factors first, dense later (sticky diagonal flag)
+    "grad_kind": ["table", "rank1_first", "onehot_first", "zero_second"],  # onehot: diagonal factors first, dense later (sticky diagonal flag)
 }
 BASELINES = [
     {"shapes": [[2, 3]], "max_dim": 3, "merge": True, "fs": (1, 1), "dt": ("f32", "f32"), "inv_root_override": 0, "exp_mult": 1.0, "ignored": [], "beta2": 1.0, "graft": None, "gscale": 1.0, "grad_kind": "table"},
